@@ -165,4 +165,21 @@ CHECKS = {
              "shards": {"quick": 5, "thorough": 16}, "timeout": {"quick": 600, "thorough": 7200}},
         ],
     },
+    "C09": {
+        "idle_overlay": True,
+        "rule": ("rapid state machine over Server.servePacket on an in-memory PacketConn (arrival order = generated order): datagrams from 1-4 client addresses of 1..9000 bytes "
+                 "tagged with client and sequence number, bursts of 6-40 (more than the channel capacities), slow consumers, handlers that finish (at once or after 1-30 ms) "
+                 "with 0-12 datagrams racing with the end of the association, floods of datagrams that match no route, pauses, idle expiry (timeout shortened to 150 ms through "
+                 "a generated overlay of layer4/server.go); then every client keeps sending until it is served again, and the socket is closed. Oracle: invariants over the "
+                 "recorded deliveries/replies/associations and no panic or wedge of the loop. Non-trivial = >= 2 clients and an association that ended followed by more "
+                 "datagrams, or > 30 deliveries; distinct = distinct history."),
+        "assumptions": ["handlers always drain their association (bounded sleeps), so a wedged loop cannot be blamed on them",
+                        "datagrams that are still queued when an association ends may be dropped (UDP); loss is not a violation, cross-delivery, duplication and reordering are",
+                        "interleavings of Close with the loop are reached by volume and generated delays, not enumerated"],
+        "min_classes": {"quick": {"C09/association-ended-then-more": 60, "C09/idle-overlay-active": 50}},
+        "runs": [
+            {"name": "demux", "pkg": "./c09", "run": ".", "rapid_checks": {"quick": 30, "thorough": 1500}, "rapid_steps": {"quick": 25, "thorough": 40},
+             "shards": {"quick": 6, "thorough": 16}, "timeout": {"quick": 600, "thorough": 7200}},
+        ],
+    },
 }
